@@ -203,6 +203,12 @@ def c04_e2e_lines(r, n):
         cases.append((10 ** 6, [bad, (other, "b", 100)]))
         cases.append((10 ** 6, [(other, "b", 100), bad, (good, "a", 5)]))
         cases.append((10 ** 6, [(bad[0], "b", 100), bad]))
+    # basis points are a 32-bit number in the payload: every value above the maximum is refused, whatever its low 8 or 16 bits
+    # would be worth on their own (65536+100, 2^16·k+1, 256+…, the top of the range)
+    for v in (255, 256, 257, 10000 + 256, 65535, 65536, 65537, 65536 + 100, 65536 + 10000, 65536 + 10001, 131073, 2 * 65536 + 5000, 2 ** 24 + 1, 2 ** 31, 2 ** 31 + 100,
+              2 ** 32 - 1, 2 ** 32 - 65536 + 100):
+        cases.append((10 ** 6, [(good, "b", v)]))
+        cases.append((10 ** 6, [(other, "b", 100), (good, "b", v)]))
     for _ in range(n):
         A = r.choice([1, 7, 100, 10 ** 4, 10 ** 6, 10 ** 9, 10 ** 18]) if r.chance(1, 2) else r.range(1, 10 ** 12)
         es = []
@@ -2067,6 +2073,21 @@ def pause_targeted(toks):
         lines.append("query IsCrossChainPaused %s %s" % (hx(p), hx(c)))
         for acts in (None, fee):
             lines.append(orb_pkt("recv", 10 ** 6, fwd, acts, denom=dn))
+        # a paused destination is refused with an acknowledgement whatever else is wrong with the payload that names it: attributes
+        # of every malformed shape (short, empty, over-long identifiers and recipients), to the paused pair and under the paused protocol
+        def _bad(p_, c_):
+            if p_ == "PROTOCOL_HYPERLANE":
+                return [hyp_fwd(tok, domain=int(c_), recipient=b"\x07" * k) for k in (0, 3, 20, 31, 33)] + [hyp_fwd(b"", domain=int(c_)), hyp_fwd(tok[:5], domain=int(c_)),
+                        hyp_fwd(tok, domain=int(c_), hook=b"\x01" * 5), hyp_fwd(tok, domain=int(c_), gas=-1), hyp_fwd(tok, domain=int(c_), fee=("", 5))]
+            if p_ == "PROTOCOL_CCTP":
+                return [cctp_fwd(domain=int(c_), mint=b"\x07" * k) for k in (0, 3, 20, 31, 33)] + [cctp_fwd(domain=int(c_), caller=b"\x05" * k) for k in (3, 33, 64)]
+            return [int_fwd(""), int_fwd("noble1xyz"), int_fwd("cosmos1qyqszqgpqyqszqgpqyqszqgpqyqszqgpjnp7du"), int_fwd(ORB)]
+        for bf in _bad(p, c):
+            lines.append(orb_pkt("recv", 10 ** 6, bf, None, denom=dn))
+        lines.append(msg_line("PauseProtocol", AUTHORITY, hx(p)))
+        for bf in _bad(p, c)[:6]:
+            lines.append(orb_pkt("recv", 10 ** 6, bf, None, denom=dn))
+        lines.append(msg_line("UnpauseProtocol", AUTHORITY, hx(p)))
         lines.append(msg_line("PauseCrossChains", AUTHORITY, hx(p), hx(c)))          # redundant
         lines.append(msg_line("UnpauseCrossChains", AUTHORITY, hx(p), hx(c)))
         lines.append(orb_pkt("recv", 10 ** 6, fwd, None, denom=dn))
